@@ -324,4 +324,15 @@ theorem C09_query_edit_keeps_selection (op : Opts) (s : TS) (q : Str) (h : s.out
   simp only [h, Option.isSome_none, Bool.false_eq_true, if_false]
   constructor <;> (simp only [act]; by_cases hi : s.inputless = true <;> simp [hi])
 
+/-- **change-multi.** The limit becomes the one given (unlimited without an argument); a
+    selection made while multi-select was on is dropped exactly when the limit is a different one
+    — so it never exceeds the new limit by surviving a change — and nothing else changes. -/
+theorem C09_change_multi (op : Opts) (s : TS) (n : Option Nat) :
+    (changeMulti op s n).1.multi = n.getD unlimitedMulti ∧
+    ((op.multi > 0 ∧ n.getD unlimitedMulti ≠ op.multi) → (changeMulti op s n).2.selected = []) ∧
+    (¬ (op.multi > 0 ∧ n.getD unlimitedMulti ≠ op.multi) → (changeMulti op s n).2 = s) ∧
+    (changeMulti op s n).2.input = s.input ∧ (changeMulti op s n).2.cy = s.cy := by
+  unfold changeMulti
+  refine ⟨rfl, fun h => by simp [h], fun h => by simp [h], ?_, ?_⟩ <;> (simp only []; split <;> rfl)
+
 end Fzf.Props.C09
